@@ -644,18 +644,22 @@ Proof.
   - apply index_of_none in Ek. apply mem_spec in Hin. contradiction.
 Qed.
 
-Lemma characters_ok alpha allowN X :
+Lemma tie_guard {T} (f : T -> bool) X force allowN :
+  (allowN = false -> existsb f X = false) -> (existsb f X && negb force && negb allowN) = false.
+Proof. destruct allowN; intros H; [apply andb_false_r|]. rewrite (H eq_refl). reflexivity. Qed.
+
+Lemma characters_ok alpha force allowN X :
   forallb (fun c => (length c =? length alpha)%nat) X = true -> (1 <= length alpha)%nat ->
-  (existsb (fun c => (1 <? count (maxZ c) c)%nat) X && negb allowN) = false ->
-  characters alpha allowN X = Ok (map (decode_col alpha allowN) X).
+  (existsb (fun c => (1 <? count (maxZ c) c)%nat) X && negb force && negb allowN) = false ->
+  characters alpha force allowN X = Ok (map (decode_col alpha allowN) X).
 Proof.
   intros Hl HA Ht. unfold characters, characters_gen. rewrite Hl. cbn [guard bind].
   destruct (Nat.eqb_spec (length alpha) 0); [lia|]. cbn [negb guard bind andb].
   rewrite Ht. reflexivity.
 Qed.
 
-Lemma round_spec alpha ign s allowN :
-  spec_ok (CRound alpha ign s allowN) (model (CRound alpha ign s allowN)) = true.
+Lemma round_spec alpha ign s force allowN :
+  spec_ok (CRound alpha ign s force allowN) (model (CRound alpha ign s force allowN)) = true.
 Proof.
   cbn [spec_ok].
   destruct (alpha_scope alpha ign && forallb is_ascii s) eqn:Hsc; [|reflexivity].
@@ -679,10 +683,10 @@ Proof.
     + apply forallb_forall. intros c Hc'. apply in_map_iff in Hc' as (ch & <- & Hch).
       apply Nat.eqb_eq. apply colf_length. auto.
     + apply (as_len _ _ S).
-    + destruct allowN; [apply andb_false_r|]. rewrite andb_true_r.
+    + apply tie_guard. intros EaN.
       apply existsb_false. intros c Hc'. apply in_map_iff in Hc' as (ch & <- & Hch).
       apply colf_no_tie; auto.
-      destruct (mem ch ign) eqn:E; [|reflexivity]. specialize (HN ch Hch E). discriminate.
+      destruct (mem ch ign) eqn:E; [|reflexivity]. specialize (HN ch Hch E). congruence.
   - rewrite (ohe_reject alpha ign s S Hs Hin). reflexivity.
 Qed.
 
@@ -724,8 +728,8 @@ Proof.
     + unfold colf. rewrite HNi. symmetry. exact E.
 Qed.
 
-Lemma back_spec alpha ign X allowN :
-  spec_ok (CBack alpha ign X allowN) (model (CBack alpha ign X allowN)) = true.
+Lemma back_spec alpha ign X force allowN :
+  spec_ok (CBack alpha ign X force allowN) (model (CBack alpha ign X force allowN)) = true.
 Proof.
   cbn [spec_ok].
   destruct (alpha_scope alpha ign && forallb (col_01 (length alpha)) X
@@ -751,9 +755,9 @@ Proof.
       apply (back_col alpha ign allowN c S (H01 c Hc) (Hcol c Hc)).
   - apply forallb_forall. intros c Hc. apply Nat.eqb_eq. apply (col_01_cases _ _ (H01 c Hc)).
   - apply (as_len _ _ S).
-  - destruct allowN; [apply andb_false_r|]. rewrite andb_true_r.
+  - apply tie_guard. intros EaN.
     apply existsb_false. intros c Hc.
-    destruct (Hcol c Hc) as [Hs|[Hf _]]; [|discriminate].
+    destruct (Hcol c Hc) as [Hs|[Hf _]]; [|congruence].
     destruct (col_01_cases _ _ (H01 c Hc)) as [_ [[_ (k & Hk & E)]|[Hz _]]]; [|lia].
     rewrite E. rewrite onehot_count by exact Hk. reflexivity.
 Qed.
@@ -1085,12 +1089,12 @@ Proof.
   - apply unchunk_chunk_exact; assumption.
 Qed.
 
-Lemma ohe_roundtrip_exact alpha ign s :
+Lemma ohe_roundtrip_exact alpha ign s force :
   alpha_scope alpha ign = true -> forallb is_ascii s = true ->
   forallb (fun ch => mem ch alpha || mem ch ign) s = true ->
   exists X, one_hot_encode alpha ign s = Ok X /\
-            characters alpha true X = Ok (map (fun c => if mem c ign then charN else c) s) /\
-            (existsb (fun ch => mem ch ign) s = false -> characters alpha false X = Ok s).
+            characters alpha force true X = Ok (map (fun c => if mem c ign then charN else c) s) /\
+            (existsb (fun ch => mem ch ign) s = false -> characters alpha force false X = Ok s).
 Proof.
   intros Hsc Hs Hin. apply alpha_scope_facts in Hsc as S.
   exists (map (colf alpha ign) s). split; [apply ohe_ok; assumption|].
@@ -1099,7 +1103,7 @@ Proof.
   { apply forallb_forall. intros c Hc. apply in_map_iff in Hc as (ch & <- & Hch).
     apply Nat.eqb_eq. apply colf_length. auto. }
   split.
-  - rewrite characters_ok; [| exact Hlen | apply S | apply andb_false_r].
+  - rewrite characters_ok; [| exact Hlen | apply S | apply tie_guard; discriminate].
     f_equal. rewrite map_map. apply map_ext_in. intros c Hc. apply decode_colf; auto.
   - intros Hno. rewrite existsb_false in Hno.
     rewrite characters_ok; [| exact Hlen | apply S |].
@@ -1107,7 +1111,7 @@ Proof.
       rewrite decode_colf; auto.
       * rewrite (Hno c Hc). reflexivity.
       * rewrite (Hno c Hc). discriminate.
-    + rewrite andb_true_r. apply existsb_false. intros c Hc. apply in_map_iff in Hc as (ch & <- & Hch).
+    + apply tie_guard. intros _. apply existsb_false. intros c Hc. apply in_map_iff in Hc as (ch & <- & Hch).
       apply colf_no_tie; auto.
 Qed.
 
